@@ -76,6 +76,24 @@ impl Net {
         res
     }
 
+    /// Metadata of replica `global_id` out of `replicas` replicas of the destination block.
+    pub fn metadata_of(
+        &mut self,
+        global_id: CoordUInt,
+        replicas: CoordUInt,
+        batch_mode: BatchMode,
+    ) -> ExecutionMetadata<'_> {
+        let block = self.dest.block_id;
+        ExecutionMetadata {
+            coord: Coord::new(block, 0, global_id),
+            replicas: (0..replicas).map(|r| Coord::new(block, 0, r)).collect(),
+            global_id,
+            prev: self.prev.clone(),
+            network: &mut self.topology,
+            batch_mode,
+        }
+    }
+
     pub fn metadata(&mut self, batch_mode: BatchMode) -> ExecutionMetadata<'_> {
         ExecutionMetadata {
             coord: self.dest,
